@@ -65,3 +65,86 @@ func VerifC16DevMode() {
 	err := WriteString(w, 1, lits[0])
 	symAssert(err == nil && string(w.b) == lits[0], "normal mode writes the compiled string")
 }
+
+
+func verifC16Escape(lit string) string {
+	q := strconv.Quote(lit)
+	return q[1 : len(q)-1]
+}
+
+// verifC16Millis: a symbolic duration of lo..hi milliseconds, in nanoseconds.
+func verifC16Millis(name string, lo, hi int64) int64 {
+	d := symInt64(name)
+	symAssume(d >= lo && d <= hi)
+	return d * 1000000
+}
+
+// VerifC16DevSession: a development session of the compiled program against a clock. The
+// generator (which is handed the .templ path, possibly a symbolic link into another directory)
+// writes the text file; the program renders; a text-only edit rewrites the text file; the
+// program keeps rendering at arbitrary moments. Every render that happens at least 100 ms (the
+// documented refresh interval of the runtime's cache) after the edit shows the new text, every
+// earlier one the old or the new text, and the first render finds the file the generator wrote.
+func VerifC16DevSession() {
+	oldLit, newLit := "<p>old \"text\"</p>", "<p>new text\n</p>" // the literal bytes are the subject of dev-mode-write
+	_, self, _, ok := goruntime.Caller(0)
+	symAssert(ok && strings.HasSuffix(self, "_templ.go"), "harness file name ends in _templ.go")
+	symSetFile(self, "// placeholder so that the path exists\n")
+	templPath := strings.TrimSuffix(self, "_templ.go") + ".templ"
+	symRemoveFile(templPath)
+	switch symChoose(3) {
+	case 0:
+		symSetFile(templPath, "package p\n")
+	case 1: // the template is a link to a file of the same name in a shared directory
+		symSetFile("/tmp/zzverif_c16shared/zzverif_c16dev.templ", "package p\n")
+		symSetSymlink(templPath, "/tmp/zzverif_c16shared/zzverif_c16dev.templ")
+	case 2: // ... to a file of another name
+		symSetFile("/tmp/zzverif_c16shared/card.templ", "package p\n")
+		symSetSymlink(templPath, "/tmp/zzverif_c16shared/card.templ")
+	}
+	txt := GetDevModeTextFileName(templPath) // the name the generator computes
+	for _, p := range []string{self, templPath, "/tmp/zzverif_c16shared/zzverif_c16dev.templ", "/tmp/zzverif_c16shared/card.templ"} {
+		symRemoveFile(GetDevModeTextFileName(p)) // no text file left over from an earlier session
+	}
+	symSetFile(txt, verifC16Escape(oldLit))
+	prevMode := developmentMode
+	developmentMode = true
+	delete(watchModeCache, txt)
+	defer func() {
+		developmentMode = prevMode
+		delete(watchModeCache, txt)
+	}()
+	render := func() (string, error) {
+		w := &verifDevRec{}
+		err := WriteString(w, 1, "stale text compiled into the binary")
+		return string(w.b), err
+	}
+	for i := 0; i < symParam("PRE"); i++ {
+		symAdvanceClock(verifC16Millis("p"+string(rune('0'+i)), 0, 200))
+		got, err := render()
+		symAssert(err == nil, "the running program finds the text file the generator wrote")
+		if err != nil {
+			return
+		}
+		symAssert(got == oldLit, "renders before the edit show the generated text")
+	}
+	symAdvanceClock(verifC16Millis("d1", 2, 200))
+	symSetFile(txt, verifC16Escape(newLit)) // a text-only edit: the generator rewrites the text file
+	sinceEdit := int64(0)
+	symCover("session")
+	for i := 0; i < symParam("RENDERS"); i++ {
+		d := verifC16Millis("r"+string(rune('0'+i)), 0, 200)
+		symAdvanceClock(d)
+		sinceEdit += d
+		got, err := render()
+		symAssert(err == nil, "rendering after the edit works")
+		if err != nil {
+			return
+		}
+		if sinceEdit >= 100*1000000 {
+			symAssert(got == newLit, "a render at least 100 ms after a text-only edit shows the edited text")
+		} else {
+			symAssert(got == newLit || got == oldLit, "a render shortly after the edit shows the old or the new text")
+		}
+	}
+}
